@@ -80,7 +80,7 @@ def expand(scn, pilot):
   seen = set()
   for conn_id, idx, op in pilot.get('oplog', []):
     epi, ordinal = conn_id.split('.')
-    for kind in KINDS[op]:
+    for kind in KINDS[op] + (['stall'] if op == 'send' and scn['stack'] == 'mux' else []):
       key = (ordinal, idx, op, kind)
       if key in seen:
         continue
@@ -198,7 +198,7 @@ def run(scn):
   gevent.sleep(3.0)
   if scn.get('long'):
     gevent.sleep(50.0)          # past one ping interval (30-40 s) + ping timeout (5 s)
-  if fired.get('kind') == 'silence' and stack == 'mux':
+  if fired.get('kind') in ('silence', 'stall') and stack == 'mux':
     gevent.sleep(max(0.0, fired['t'] + 47.0 - CLOCK.now))
   if fired.get('kind') == 'hang':
     gevent.sleep(max(0.0, fired['t'] + 130.0 - CLOCK.now))   # the kernel gives up after 127 s
@@ -211,6 +211,11 @@ def run(scn):
       REC.violation('C08', 'failed_twice', 'request %s received %d responses' % (c.id, len(c.completions)), sig)
   if 't' in fired:
     tf, kind = fired['t'], fired['kind']
+    if kind == 'stall':
+      # a peer that stops reading in the middle of a frame (the writer stays
+      # parked, later requests queue up behind it) is a silent peer
+      REC.probe('peer_stopped_reading')
+      kind = 'silence'
     inflight = fired['inflight']
     if inflight:
       REC.probe('fault_with_inflight')
